@@ -1195,6 +1195,12 @@ func (a *analysis) callAccesses(fi *fnInfo, st relState, ins ssa.Instruction, c 
 		if k := a.guardedLoad(arg); k != "" {
 			// receiver (first argument of a method call) or plain argument
 			isRecv := i == 0 && !c.IsInvoke() && isMethod
+			if !(isRecv && a.mutators[name]) && isPlainValue(arg.Type()) {
+				// a struct / array / basic value passed by value: the callee
+				// works on a copy; the field itself was read where the value
+				// was loaded (`v := s.f` under the lock, `use(v)` after it)
+				continue
+			}
 			emit(k, isRecv && a.mutators[name], "arg-"+name)
 			continue
 		}
@@ -1211,6 +1217,18 @@ func (a *analysis) callAccesses(fi *fnInfo, st relState, ins ssa.Instruction, c 
 			}
 		}
 	}
+}
+
+// isPlainValue: values of this type are copied when passed (no sharing at the
+// top level): structs, arrays, basic types.  Maps, slices, pointers, channels,
+// functions and interfaces alias the memory behind the field they were loaded
+// from.
+func isPlainValue(t types.Type) bool {
+	switch t.Underlying().(type) {
+	case *types.Struct, *types.Array, *types.Basic:
+		return true
+	}
+	return false
 }
 
 // ---------------------------------------------------------------- guards file
@@ -1279,10 +1297,33 @@ func (a *analysis) findRoots(controlLock int) []root {
 		"(*dnsforward.Server).HandleBefore":     "dns",
 		"(*dhcpd.v4Server).packetHandler":       "dhcp",
 		"(*dhcpd.v6Server).packetHandler":       "dhcp",
+		// DNS-over-HTTPS entry (registered with an empty method under /dns-query)
+		"(*dnsforward.Server).handleDoH": "dns",
+		// the authentication middleware runs for every HTTP request, outside
+		// home.controlLock: its session / user look-ups (the wrapper itself,
+		// optionalAuth$1, is not a root: following its handler argument would
+		// reach every admin handler without the control lock it really holds)
+		"home.optionalAuthThird":         "auth",
+		"(*home.Auth).checkSession":      "auth",
+		"(*home.Auth).authRequired":      "auth",
+		"(*home.Auth).getCurrentUser":    "auth",
+		// routes registered directly on the mux (not through httpRegister)
+		"(*home.webAPI).handleVersionJSON": "http-direct",
+		"home.handleMobileConfigDoH":       "http-direct",
+		"home.handleMobileConfigDoT":       "http-direct",
+	}
+	// registered directly as ensureHandler(POST, ...): runs under home.controlLock
+	explicitLocked := map[string]string{
+		"home.handleLogin": "http:POST:/control/login",
 	}
 	for _, fn := range a.order {
 		if k, ok := explicit[a.fnName(fn)]; ok {
 			addRoot(root{name: k + ":" + a.fnName(fn), fn: fn, kind: k})
+		}
+		if n, ok := explicitLocked[a.fnName(fn)]; ok {
+			r := root{name: n, fn: fn, kind: "http"}
+			r.entry = r.entry.with(controlLock)
+			addRoot(r)
 		}
 	}
 	// HTTP handlers: calls f(method, "/control/...", handler)
